@@ -18,7 +18,9 @@ import (
 
 	"github.com/ccbrown/api-fu/graphql"
 	"github.com/ccbrown/api-fu/graphql/ast"
+	"github.com/ccbrown/api-fu/graphql/executor"
 	"github.com/ccbrown/api-fu/graphql/parser"
+	"github.com/ccbrown/api-fu/graphql/validator"
 
 	"verifharness/internal/hx"
 	"verifharness/internal/rng"
@@ -76,6 +78,11 @@ func buildSchema(s *schemaDef) (*graphql.Schema, error) {
 			named[t.name] = i
 		}
 	}
+	if s.poolArgs != nil {
+		for n, t := range stdInputTypes() {
+			named[n] = t
+		}
+	}
 	for _, t := range s.types {
 		if t.kind == "union" {
 			u := &graphql.UnionType{Name: t.name}
@@ -113,14 +120,14 @@ func buildSchema(s *schemaDef) (*graphql.Schema, error) {
 		case "object":
 			for _, f := range t.fields {
 				objs[t.name].Fields[f.name] = &graphql.FieldDefinition{Type: mk(f.ty), Resolve: resolver(f.name),
-					Arguments: argumentDefinitions(t.fargs[f.name], mk)}
+					Arguments: argumentDefinitions(fieldArgs(s, t, f.name), mk)}
 			}
 			for _, i := range t.ifaces {
 				objs[t.name].ImplementedInterfaces = append(objs[t.name].ImplementedInterfaces, ifaces[i])
 			}
 		case "interface":
 			for _, f := range t.fields {
-				ifaces[t.name].Fields[f.name] = &graphql.FieldDefinition{Type: mk(f.ty)}
+				ifaces[t.name].Fields[f.name] = &graphql.FieldDefinition{Type: mk(f.ty), Arguments: argumentDefinitions(fieldArgs(s, t, f.name), mk)}
 			}
 		}
 	}
@@ -247,7 +254,7 @@ func selsSexp(ss *ast.SelectionSet) (sexp.Node, []selInfo) {
 				nodeArgs = append(nodeArgs, sexp.L(al...))
 			}
 			out = append(out, sexp.T("field", alias, sexp.Str(s.Name.Name), posSexp(s), dirsSexp(s.Directives), sub))
-			info = append(info, selInfo{kind: "field", name: s.Name.Name, sub: subInfo})
+			info = append(info, selInfo{kind: "field", name: s.Name.Name, sub: subInfo, node: s})
 		case *ast.FragmentSpread:
 			out = append(out, sexp.T("spread", sexp.Str(s.FragmentName.Name), posSexp(s), dirsSexp(s.Directives)))
 			info = append(info, selInfo{kind: "spread", name: s.FragmentName.Name})
@@ -265,6 +272,8 @@ func selsSexp(ss *ast.SelectionSet) (sexp.Node, []selInfo) {
 }
 
 type parsedDoc struct {
+	real   *graphql.Schema        // the schema the case runs against
+	vv     map[string]interface{} // the coerced variables of the selected operation (nil: they do not coerce)
 	node   sexp.Node
 	opSels []selInfo
 	frags  map[string]fragInfo
@@ -431,7 +440,7 @@ type caseInput struct {
 	// Request.OperationName
 	opName string
 	vars   map[string]interface{}
-	env  map[string]*bool
+	env    map[string]*bool
 	// outcome tree: built after parsing, from the parsed document
 	mkW func(p parsedDoc) *outcome
 	// the document is not expected to be valid: parse only
@@ -480,6 +489,15 @@ func runCase(in caseInput) sexp.Node {
 			rawVars, sexp.Sym("nil"), sexp.T("rejected", sexp.Str(in.text), sexp.Str(errs[0].Message)), sexp.L(flags...))
 	}
 	pd := docSexp(doc, in.opName)
+	pd.real = schema
+	if op, operr := executor.GetOperation(doc, in.opName); operr == nil {
+		if vv, verr := validator.CoerceVariableValues(schema, nil, op, in.vars); verr == nil {
+			if vv == nil {
+				vv = map[string]interface{}{}
+			}
+			pd.vv = vv
+		}
+	}
 	w := in.mkW(pd)
 	var obs sexp.Node
 	func() {
@@ -514,7 +532,7 @@ func genCase(r *rng.R, hostile bool) sexp.Node {
 	d := genDocument(r, s, hostile)
 	pFail := rng.Pick(r, []int{0, 3, 8, 8, 15, 15, 25, 40})
 	return runCase(caseInput{s: s, text: d.text, opName: d.opName, vars: d.vars, env: d.env, unvalidated: hostile, mkW: func(p parsedDoc) *outcome {
-		g := &wGen{s: s, r: r, pFail: pFail, frags: p.frags}
+		g := &wGen{s: s, r: r, pFail: pFail, frags: p.frags, real: p.real, vv: p.vv}
 		root := s.query
 		if p.kind == "mutation" {
 			root = s.mutation
